@@ -11,10 +11,10 @@ import itertools
 
 import numpy as np
 
-from harness import common, nnd_corr
+from harness import common, nnd_corr, lattice
 from harness.common import fmt
 
-COQ_FILES = ["model/Base.v", "model/SparseOps.v", "proofs/ListAux.v", "proofs/C08Proofs.v"]
+COQ_FILES = ["model/Base.v", "model/SparseOps.v", "proofs/ListAux.v", "proofs/C08Proofs.v", "model/Lattice.v", "proofs/LatticeProofs.v"]
 SENTINELS = {"pynndescent/sparse.py": ["fast_intersection_size", "sparse_sum", "sparse_diff", "sparse_mul", "sparse_dot_product",
                                        "dense_union", "arr_union", "arr_unique", "sparse_euclidean", "sparse_squared_euclidean",
                                        "sparse_manhattan", "sparse_chebyshev", "sparse_minkowski", "sparse_hamming", "sparse_canberra",
@@ -181,6 +181,7 @@ def run(ctx):
     ctx.notes["sentinels"] = cur
     ctx.build(COQ_FILES)
     primitives(ctx, ctx.budget(400, 4000))
+    lattice.stream(ctx, ctx.budget(600, 6000), "sparse")
     metric_pairs(ctx, 6, ctx.budget(7, 1))
     if not changed and unknown:
         common.update_sentinels(cur)
